@@ -7,21 +7,38 @@ From BBLib Require Import NumSig Tridiag Reservoir ReservoirThms SolverOracle.
 Import ListNotations.
 Open Scope R_scope.
 
+(* nothing is assumed about the iterative solver: what is stored passed the code's own true-residual test
+   (check = _is_solved) or is the direct solution *)
+Theorem C04_stored_steps_are_checked_or_direct :
+  forall (solve : list (R * R * R) -> list R -> list R * nat) (direct : list (R * R * R) -> list R -> list R)
+         (check : list (R * R * R) -> list R -> list R -> bool) alpha_s m_i dx2 times mf prev,
+    steps_ok alpha_s m_i dx2 (checked_or_direct direct check) times mf prev (run_o solve direct check alpha_s m_i dx2 times mf prev).
+Proof. intros. apply stored_steps_are_checked_or_direct. Qed.
+Print Assumptions C04_stored_steps_are_checked_or_direct.
+
 Theorem C04_stored_steps_have_small_residual :
   forall (solve : list (R * R * R) -> list R -> list R * nat) (direct : list (R * R * R) -> list R -> list R)
+         (check : list (R * R * R) -> list R -> list R -> bool)
          (within_tol : list (R * R * R) -> list R -> list R -> Prop),
-    (forall rows b x, solve rows b = (x, 0%nat) -> within_tol rows b x) ->
+    (forall rows b x, check rows b x = true -> within_tol rows b x) ->
     (forall rows b, within_tol rows b (direct rows b)) ->
   forall alpha_s m_i dx2 times mf prev,
-    steps_ok within_tol alpha_s m_i dx2 times mf prev (run_o solve direct alpha_s m_i dx2 times mf prev).
+    steps_ok alpha_s m_i dx2 within_tol times mf prev (run_o solve direct check alpha_s m_i dx2 times mf prev).
 Proof. intros. now apply stored_steps_have_small_residual. Qed.
 Print Assumptions C04_stored_steps_have_small_residual.
 
 Theorem C04_nonconverged_iterate_never_stored :
-  forall (solve : list (R * R * R) -> list R -> list R * nat) (direct : list (R * R * R) -> list R -> list R) rows b x k,
-    solve rows b = (x, S k) -> accept solve direct rows b = direct rows b.
+  forall (solve : list (R * R * R) -> list R -> list R * nat) (direct : list (R * R * R) -> list R -> list R) check rows b x k,
+    solve rows b = (x, S k) -> accept solve direct check rows b = direct rows b.
 Proof. exact nonconverged_iterate_never_stored. Qed.
 Print Assumptions C04_nonconverged_iterate_never_stored.
+
+(* "converged" according to the solver's recursively updated residual, but not according to the true one *)
+Theorem C04_drifted_iterate_never_stored :
+  forall (solve : list (R * R * R) -> list R -> list R * nat) (direct : list (R * R * R) -> list R -> list R) check rows b x,
+    solve rows b = (x, O) -> check rows b x = false -> accept solve direct check rows b = direct rows b.
+Proof. exact drifted_iterate_never_stored. Qed.
+Print Assumptions C04_drifted_iterate_never_stored.
 
 (* with an exact solver the accepted level *is* the model's Thomas solution (uniqueness) *)
 Theorem C04_exact_update_is_unique :
